@@ -130,6 +130,10 @@ def step (s : St) (toks : List String) : St × String :=
     match (lookup [a] "a").bind acct?, lookupNat [id] "id", pairs? ps with
     | some a, some id, some ps => res s (swap s a id ps)
     | _, _, _ => (s, "bad-op")
+  | ["withdraw-surplus", t, ids] =>
+    match (lookup [t] "to").bind acct?, (lookup [ids] "ids").bind natList? with
+    | some t, some ids => res s (withdrawSurplus s t ids)
+    | _, _ => (s, "bad-op")
   | ["obs", id, accs] =>
     match lookupNat [id] "id", (lookup [accs] "acc").bind natList? with
     | some id, some accs => (s, obs s id accs)
